@@ -2,12 +2,16 @@
 mod consts;
 mod d1;
 mod d3;
+mod d5;
+mod d5gen;
 mod nor;
 mod util;
 
 fn main() {
     let args: Vec<String> = std::env::args().skip(1).collect();
-    std::panic::set_hook(Box::new(|_| {}));
+    if std::env::var("FH_DEBUG").is_err() {
+        std::panic::set_hook(Box::new(|_| {}));
+    }
     let get = |k: &str, d: &str| -> String {
         args.iter().position(|a| a == k).and_then(|i| args.get(i + 1).cloned()).unwrap_or(d.to_string())
     };
@@ -37,6 +41,14 @@ fn main() {
         Some("d1") => {
             let mut ex = d1::Exec::new();
             run("d1", &d1::gen, &mut |l, o| ex.line(l, o))
+        }
+        Some("d5s") => {
+            let mut ex = d5::Exec::new();
+            run("d5s", &d5gen::gen_sessions, &mut |l, o| ex.line(l, o))
+        }
+        Some("d5g") => {
+            let mut ex = d5::Exec::new();
+            run("d5g", &d5gen::gen_geometry, &mut |l, o| ex.line(l, o))
         }
         Some("d1f") => {
             let mut ex = d1::Exec::new();
